@@ -35,6 +35,13 @@ def leg_a(tier):
     with mp.Pool(2) as pool:
         outs = pool.map(_legA_one, jobs)
     res = {o["name"]: o for o in outs}
+    cfg = tlc.make_cfg(dict(Cap=2, Prios={0, 1, 2}, MaxQ=3 if tier == "quick" else 4),
+                       invariants=["P_C05_Sorted", "P_C05_ServedIsMin", "P_C01_Cap", "P_C04_EOI"], constraint="Bound", view="View")
+    r = tlc.run_tlc("PrioReqStore", cfg, workers=8, timeout=900)
+    o = r.as_dict()
+    o["name"] = "prioreqstore"
+    o["consts"] = {}
+    res["prioreqstore"] = o
     common.save_json(p, res)
     return res
 
@@ -103,6 +110,64 @@ def _random_one(args):
             "crashes": [t["src"] for t in traces if t["src"].startswith("random-crash")][:3]}
 
 
+def _prioreq_one(args):
+    """Random histories on the real PriorityReqStore (SimPy Store with sorted request queues): put / get
+    REQUESTS with priorities, cancellations of waiting requests, time gaps.  Recorded in the Trace_Store
+    schema (a request is a token that is 'granted' when the request event is triggered); judged for C05."""
+    seed, ntraces, nsteps, outdir = args
+    from factorysimpy.base.priority_req_store import PriorityReqStore
+    from .tracer import TracedEnvironment, quiet
+    rng = random.Random("prioreq-%d" % seed)
+    traces = []
+    for i in range(ntraces):
+        cap = rng.choice([1, 2, 3])
+        cfg = dict(kind="prioreq", mode="FIFO", cap=cap, fdelay=1, transit=0, trig=0)
+        env = TracedEnvironment()
+        st = PriorityReqStore(env, capacity=cap)
+        reqs = []          # (event, kind, prio, state)
+        ev = []
+        now = [0]
+
+        def obs(k, **kw):
+            q = not any(t <= env.now and e.callbacks for (t, _p, _i, e) in env._queue)
+            d = {"k": k, "t": now[0], "op": "", "p": 0, "tok": 0, "it": 0, "tag": 0, "d": 0, "prio": 0, "flt": 1, "res": "",
+                 "ri": 0, "dr": -1, "trig": [j + 1 for j, r in enumerate(reqs) if r[3] == "live" and r[0].triggered],
+                 "ready": [], "cp": 2, "cg": 2, "occ": -1, "q": q}
+            d.update(kw)
+            ev.append(d)
+        with quiet():
+            obs("e")
+            for _ in range(nsteps):
+                r = rng.random()
+                if r < 0.15:
+                    while not env.instant_over():
+                        env.step()
+                    obs("e")
+                    now[0] += 1
+                    env.advance_to(float(now[0]))
+                    obs("t")
+                elif r < 0.30 and not env.instant_over():
+                    env.step()
+                    obs("f")
+                elif r < 0.42 and any(x[3] == "live" and not x[0].triggered for x in reqs):
+                    j = rng.choice([j for j, x in enumerate(reqs) if x[3] == "live" and not x[0].triggered])
+                    reqs[j][0].cancel()
+                    reqs[j][3] = "canc"
+                    obs("c", op="cp" if reqs[j][1] == "put" else "cg", tok=j + 1, res="ok")
+                else:
+                    kind = rng.choice(["put", "get"])
+                    pr = rng.choice([-2, 0, 0, 1, 5])
+                    e = st.put(object(), priority=pr) if kind == "put" else st.get(priority=pr)
+                    reqs.append([e, kind, pr, "live"])
+                    obs("c", op="rp" if kind == "put" else "rg", tok=len(reqs), prio=pr, res="tok")
+            while not env.instant_over():
+                env.step()
+            obs("e")
+        traces.append({"cfg": cfg, "src": "random", "name": "prioreq", "ev": ev})
+    common.save_json(os.path.join(outdir, "prq_prioreq.json"), traces)
+    return {"name": "prioreq", "traces": len(traces), "events": sum(len(t["ev"]) for t in traces), "crashes": []}
+
+
 def corpus(tier, seed):
     """Build (or reuse) the trace corpus of the current /repo tree.  -> (dir, stats)"""
     key = "%s-%s-%s-%s-%s" % (common.src_hash(), common.spec_hash(), common.harness_hash(), tier, seed)
@@ -117,10 +182,11 @@ def corpus(tier, seed):
     jobs = [(n, c, seed, budget, d) for n, c in W.items()]
     rjobs = [(n, seed, 30 if tier == "quick" else 300, 150 if tier == "quick" else 300, d) for n in RANDOM_CFGS]
     with mp.Pool(6 if tier == "quick" else 8) as pool:
+        pa = pool.apply_async(_prioreq_one, ((seed, 40 if tier == "quick" else 600, 120, d),))
         ra = pool.map_async(_random_one, rjobs)
         wa = pool.map_async(_walk_one, jobs)
         walks = wa.get()
-        rands = ra.get()
+        rands = ra.get() + [pa.get()]
     st = {"walks": walks, "random": rands, "wall": round(time.time() - t0, 1)}
     common.save_json(stp, st)
     return d, st
@@ -131,11 +197,14 @@ def _legC_one(args):
     fname, d = args
     traces = common.load_json(os.path.join(d, fname))
     invs, props = [], []
-    for k, (i, p) in tracecheck.T_STORE.items():
-        invs += i
-        props += p
-    invs += tracecheck.WF_CLAUSES[0]
-    props += tracecheck.WF_CLAUSES[1]
+    if fname.startswith("prq_"):
+        invs, props = ["T_WF"], ["T_C05_GrantOrder", "T_TimeMonotone"]
+    else:
+        for k, (i, p) in tracecheck.T_STORE.items():
+            invs += i
+            props += p
+        invs += tracecheck.WF_CLAUSES[0]
+        props += tracecheck.WF_CLAUSES[1]
     viol, r = tracecheck.check_batch("Trace_Store", traces, invs, props, workers=4, timeout=1800, tag=fname)
     out = {"file": fname, "tlc": r.as_dict(), "violations": viol, "traces": len(traces),
            "events": sum(len(t["ev"]) for t in traces)}
@@ -149,7 +218,7 @@ def leg_c(d):
     res = common.load_json(p)
     if res is not None:
         return res
-    files = sorted(f for f in os.listdir(d) if f.startswith(("walk_", "rand_")) and f.endswith(".json"))
+    files = sorted(f for f in os.listdir(d) if f.startswith(("walk_", "rand_", "prq_")) and f.endswith(".json"))
     with mp.Pool(4) as pool:
         outs = pool.map(_legC_one, [(f, d) for f in files])
     res = {o["file"]: o for o in outs}
